@@ -243,7 +243,7 @@ def item_labels(r):
             jobs_per_item[e[4]].append(e[3])
     for st in r.trace:
         tid, role, kind, data, no = st['tid'], st['role'], st['kind'], st['data'], st['step']
-        if kind == 'start':
+        if kind in ('start', 'released'):
             continue
         if role == 'reader':
             if kind == 'acquire' and data[0] == 'M':
@@ -319,50 +319,61 @@ def impl_summary(r, item):
     return [sym('some'), [A(n), sx.opt(code, lambda c: c.encode()), A(bool(running)), A(queued), A(bool(last))]]
 
 
-def compare_with_model(ctx, runs):
-    """runs: list of Run.  -> list of disagreement dicts"""
+def prepare(r):
+    """plain-data digest of a Run for the comparison with the model (picklable)"""
+    per, problems = item_labels(r)
+    pb = puts_by_step(r)
+    items = {}
+    for item, labs in per.items():
+        items[item] = {'labels': [l for l, _ in labs], 'lines': [pb.get(no, []) for _, no in labs], 'final': impl_summary(r, item)}
+    return {'items': items, 'problems': problems, 'status': r.status, 'scenario': r.sc.describe(), 'schedule': [c for c, _ in r.taken]}
+
+
+def compare_prepared(ctx, preps):
+    """-> list of disagreement dicts (each with 'prep')"""
     calls = []
     meta = []
-    for r in runs:
-        per, problems = item_labels(r)
-        pb = puts_by_step(r)
-        for p in problems:
-            meta.append(('problem', r, None, p, None))
-        for item, labs in per.items():
-            calls.append([sym('item_run'), item.encode('utf-8'), [l for l, _ in labs]])
-            meta.append(('run', r, item, labs, pb))
-    outs = ctx.model(calls)
     dis = []
-    k = 0
-    for m in meta:
-        if m[0] == 'problem':
-            dis.append({'relation': 'trace shape', 'detail': m[3], 'run': m[1]})
-            continue
-        _, r, item, labs, pb = m
-        out = outs[k]
-        k += 1
+    for pz in preps:
+        for p in pz['problems']:
+            dis.append({'relation': 'trace shape', 'detail': p, 'prep': pz})
+        for item, d in pz['items'].items():
+            calls.append([sym('item_run'), item.encode('utf-8'), d['labels']])
+            meta.append((pz, item, d))
+    outs = ctx.model(calls)
+    for (pz, item, d), out in zip(meta, outs):
         if sx.is_err(out):
-            dis.append({'relation': 'Item.run', 'detail': 'driver error %s' % sx.dumps(out), 'run': r, 'item': item})
+            dis.append({'relation': 'Item.run', 'detail': 'driver error %s' % sx.dumps(out), 'prep': pz})
         elif out[0] == b'rejected':
             idx = int(out[1])
             dis.append({'relation': 'Item.step accepts every implementation step',
-                        'detail': 'item %s: the model refuses step %d (%s) in state %s' % (item, idx, sx.dumps(labs[idx][0]), sx.dumps(out[2])),
-                        'run': r, 'item': item})
+                        'detail': 'item %s: the model refuses step %d (%s) in state %s' % (item, idx, sx.dumps(d['labels'][idx]), sx.dumps(out[2])), 'prep': pz})
+        elif out[0] == b'env-rejected':
+            dis.append({'relation': 'environment assumption', 'detail': 'item %s: arrival %d violates alternation / distinct ids' % (item, int(out[1])), 'prep': pz})
         else:
-            per_step = out[1]
-            for (lab, no), lines in zip(labs, per_step):
-                if list(lines) != pb.get(no, []):
-                    dis.append({'relation': 'lines enqueued per step',
-                                'detail': 'item %s step %s: model %r, implementation %r' % (item, sx.dumps(lab), lines, pb.get(no, [])),
-                                'run': r, 'item': item})
+            if out[3]:
+                dis.append({'relation': 'invariants / monitors of Model/ItemSpec.v hold along the trace',
+                            'detail': 'item %s: failing %s' % (item, sx.dumps(out[3])), 'prep': pz})
+            bad = None
+            for k, (lab, want, got) in enumerate(zip(d['labels'], out[1], d['lines'])):
+                if list(want) != list(got):
+                    bad = 'item %s step %d %s: model %r, implementation %r' % (item, k, sx.dumps(lab), want, got)
                     break
-            else:
-                if r.status == 'quiescent':
-                    summ = out[2]
-                    if summ[0] != impl_summary(r, item):
-                        dis.append({'relation': 'final per-item state', 'detail': 'item %s: model %s, implementation %s' % (
-                            item, sx.dumps(summ[0]), sx.dumps(impl_summary(r, item))), 'run': r, 'item': item})
+            if bad:
+                dis.append({'relation': 'lines enqueued per step', 'detail': bad, 'prep': pz})
+            elif pz['status'] == 'quiescent' and out[2][0] != d['final']:
+                dis.append({'relation': 'final per-item state', 'detail': 'item %s: model %s, implementation %s' % (
+                    item, sx.dumps(out[2][0]), sx.dumps(d['final'])), 'prep': pz})
     return dis
+
+
+def compare_with_model(ctx, runs):
+    out = []
+    for d in compare_prepared(ctx, [prepare(r) for r in runs]):
+        d = dict(d)
+        d.pop('prep', None)
+        out.append(d)
+    return out
 
 
 # ---------------------------------------------------------------- oracles (implementation observables only)
@@ -512,6 +523,15 @@ def oracle_c02(r, F):
                     out.append(('item %s: subscription %s skipped although no later request had arrived' % (item, rid), {'kind': 'skip_without_later'}))
                 if r.status == 'quiescent' and not r.pending_chunks and last_req[item] == rid:
                     out.append(('item %s: the latest request %s (a subscription) was skipped' % (item, rid), {'kind': 'latest_skipped'}))
+    if r.status == 'quiescent' and not r.pending_chunks:
+        for item, rid in last_req.items():
+            if F.meth_of[rid] == 'SUB' and not any(c.name in ('issnapshot_available', 'subscribe') for c in F.calls_of.get(rid, [])) \
+                    and not any(is_late(l) for _, _, l in F.replies.get(rid, [])):
+                # calls are attributed through the reply; an unanswered request has none attributed: look at raw calls after its arrival
+                arr = F.arrival.get(rid)
+                made = [c for c in r.calls if c.item == item and c.name in ('issnapshot_available', 'subscribe') and arr is not None and c.b > arr]
+                if not made:
+                    out.append(('item %s: the latest request %s (a subscription) was never executed' % (item, rid), {'kind': 'latest_not_executed'}))
     return out
 
 
